@@ -302,7 +302,7 @@ static double data_array_median(const unsigned n, const double v[n])
 
     double r;
     if (n % 2u == 0u) {
-        r =  (double)(v[n/2u - 1u] + v[n / 2u]) / 2.0;
+        r = cmi_dataset_midpoint(v[n/2u - 1u], v[n / 2u]);
     }
     else {
         r = (double)(v[n / 2u]);
